@@ -73,6 +73,8 @@ pub enum Ev {
     Recv { side: Side, msg: WMsg },
     RecvEnd { side: Side, err: bool },
     SinkClosed { side: Side },
+    /// the connection task of `side` got an error from its sink
+    SinkErrorSeen { side: Side },
     App(AppEv),
     Fault(String),
     TaskExit { side: Side, result: Result<(), String> },
@@ -154,6 +156,7 @@ pub fn fmt_ev(e: &Ev) -> String {
         Ev::Recv { side, msg } => format!("{}<{}", sn(side), msg.short()),
         Ev::RecvEnd { side, err } => format!("{}<{}", sn(side), if *err { "ERR" } else { "EOF" }),
         Ev::SinkClosed { side } => format!("{} sink closed", sn(side)),
+        Ev::SinkErrorSeen { side } => format!("{} sees sink error", sn(side)),
         Ev::App(a) => format!("{a:?}"),
         Ev::Fault(f) => format!("FAULT {f}"),
         Ev::TaskExit { side, result } => format!("task {} exit {result:?}", sn(side)),
@@ -223,6 +226,7 @@ impl WebSocket for SimWs {
         let mut l = self.link.0.lock().unwrap();
         let d = &mut l.dir[self.side];
         if d.sink_err {
+            self.log.push(Ev::SinkErrorSeen { side: self.side });
             return Poll::Ready(Err(ws_err("sink failed")));
         }
         if d.sink_closed {
@@ -241,6 +245,7 @@ impl WebSocket for SimWs {
         let mut l = self.link.0.lock().unwrap();
         let d = &mut l.dir[self.side];
         if d.sink_err {
+            self.log.push(Ev::SinkErrorSeen { side: self.side });
             return Err(ws_err("sink failed"));
         }
         if d.sink_closed {
@@ -257,6 +262,7 @@ impl WebSocket for SimWs {
     fn poll_flush_unpin(&mut self, _cx: &mut Context<'_>) -> Poll<Result<(), penguin_mux::Error>> {
         let l = self.link.0.lock().unwrap();
         if l.dir[self.side].sink_err {
+            self.log.push(Ev::SinkErrorSeen { side: self.side });
             return Poll::Ready(Err(ws_err("sink failed")));
         }
         Poll::Ready(Ok(()))
